@@ -416,7 +416,7 @@ def execute(task, rec, world, shadow=True):
     op = OPS[rec["op"]]
     ins = [task.slots[s] for s in rec["in"]]
     if op.creates and world is not None:
-        world.reseed(task.id, rec["id"])
+        world.reseed(getattr(task, "data_key", task.id), rec["id"])
     outs = op.run(task, rec, ins)
     if len(outs) != len(rec["out"]):
         raise RuntimeError("op %s returned %d outputs, record has %d" % (rec["op"], len(outs), len(rec["out"])))
@@ -983,7 +983,8 @@ class OpAddLeg(Op):
         if g.rng.random() < 0.5 or sa.sym.nsym == 0:
             t = None
         else:
-            t = [g.rng.choice(m and list(range(m)) or [-1, 0, 1, 2]) for m in sa.sym.mods]
+            # charges outside the canonical range are legal input (the group law reduces them)
+            t = [g.rng.choice(m and list(range(-1, m + 2)) or [-1, 0, 1, 2]) for m in sa.sym.mods]
         return {"op": "add_leg", "in": [a], "args": {"axis": g.rng.randint(-sa.ndim - 1, sa.ndim), "s": s, "t": t}}
 
     def run(self, task, rec, ins):
@@ -1180,6 +1181,31 @@ class OpFusePair(Op):
         g.emit(rec)
         rec2 = {"op": "fuse", "in": [b], "args": {"axes": rec["args"]["axes"], "mode": rec["args"]["mode"]}}
         return rec2
+
+
+@register
+class OpPairUnary(Op):
+    """Generator-only macro: the same transpose / conj applied to two same-structure tensors, so that
+    binary ops meet two operands carrying the SAME pending permutation (and possibly mismatched
+    fusion histories)."""
+    name = "pair_unary"
+
+    def gen(self, g):
+        a = g.pick_tensor(lambda s, v, sh: sh is not None and sh.ndim >= 2)
+        if a is None:
+            return None
+        b = partner_same(g, a, allow_self=False)
+        if b is None or b == a:
+            return None
+        sa = g.sh(a)
+        if g.rng.random() < 0.75:
+            p = list(range(sa.ndim))
+            g.rng.shuffle(p)
+            rec = {"op": "transpose", "in": [a], "args": {"kind": "transpose", "axes": p}}
+        else:
+            rec = {"op": "conj", "in": [a], "args": {"kind": g.rng.choice(["conj", "flip_signature"])}}
+        g.emit(rec)
+        return {"op": rec["op"], "in": [b], "args": dict(rec["args"])}
 
 
 # ---- element-wise --------------------------------------------------------------------------------
@@ -1780,7 +1806,7 @@ DEFAULT_WEIGHTS = {
     "rand": 3, "rand_diag": 1, "add": 3, "scal": 1.5, "conj": 2, "transpose": 3, "tensordot": 6, "vdot": 1.5,
     "trace": 2, "broadcast": 1.5, "apply_mask": 1, "diag": 1, "add_leg": 1, "remove_leg": 1, "fuse": 3,
     "fuse_pair": 2, "unfuse": 2, "meta_to_hard": 0.7, "elementwise": 1.5, "copy": 1.5, "ncon": 1.5,
-    "factor_recombine": 1, "svd": 1, "norm": 0.5, "swap_gate": 1, "eigh_gram": 0.7, "observe": 0.3,
+    "factor_recombine": 1, "svd": 1, "norm": 0.5, "swap_gate": 1, "eigh_gram": 0.7, "observe": 0.3, "pair_unary": 1.5,
 }
 
 
